@@ -400,7 +400,7 @@ def floors(tier):
                         "unique_optimum": 500, "unequal_counts": 1500, "stationary": 500, "per_epoch": 1500,
                         "T=1": 50, "T>=6": 500, "single_candidate_epoch": 500, "unnormalised_gt1": 300,
                         "obs_2d": 500, "five_candidates": 300, "viterbi_oracle": 3 if not big else 50},
-            "counters": {"models_judged": 500000 * k, "models_with_ties": 30000 * k, "models_all_zero": 20000 * k,
+            "counters": {"models_judged": 500000 * k, "models_with_ties": 20000 * k, "models_all_zero": 20000 * k,
                          "diag_tie_cells": 1000, "oracle_selfcheck": 1000},
             "distinct_nontrivial": 4000}
 
